@@ -62,16 +62,16 @@ theorem C01_chunk_length (ch : ℕ) (hch : 1 ≤ ch) (bus : List (Frame ℝ)) :
     callback — so the number of chunks is at most `frames`, and none exceeds the internal buffers. -/
 theorem C01_chunks_cover (ibs : ℕ) (hibs : 1 ≤ ibs) :
     ∀ (fuel frames : ℕ), frames ≤ fuel →
-      (chunkSizes ibs fuel frames).sum = frames ∧ ∀ n ∈ chunkSizes ibs fuel frames, 1 ≤ n ∧ n ≤ ibs := by
+      (finalChunkSizes ibs fuel frames).sum = frames ∧ ∀ n ∈ finalChunkSizes ibs fuel frames, 1 ≤ n ∧ n ≤ ibs := by
   intro fuel
   induction fuel with
   | zero =>
     intro frames h
     have : frames = 0 := by omega
-    subst this; simp [chunkSizes]
+    subst this; simp [finalChunkSizes]
   | succ k ih =>
     intro frames h
-    unfold chunkSizes
+    unfold finalChunkSizes
     by_cases h0 : frames = 0
     · simp [h0]
     · simp only [h0, if_false]
